@@ -402,6 +402,41 @@ func (u *User) fire(ev *UserEvent) {
 		}
 		u.Disturbed = true
 		_ = u.h.Delete(u.ctx, ro)
+	case "touch-annotation":
+		o := u.getWorkload()
+		if o == nil {
+			return
+		}
+		a := o.GetAnnotations()
+		if a == nil {
+			a = map[string]string{}
+		}
+		a["user/touched"] = fmt.Sprint(u.Actions)
+		o.SetAnnotations(a)
+		if webhookDown(u.h.Update(u.ctx, o)) {
+			return
+		}
+	case "hostile-pod-labels":
+		// users may label pods: put the current rollout-id with an odd batch-id on a new-revision pod
+		br := &v1beta1.BatchRelease{}
+		if err := u.h.Get(u.ctx, u.rolloutKey(), br); err != nil || br.Spec.ReleasePlan.RolloutID == "" {
+			return
+		}
+		var cands []*corev1.Pod
+		for _, k := range s.Store.Keys(gkPod) {
+			p := s.Store.Peek(k).(*corev1.Pod)
+			if k.NS == u.sc.NS && p.DeletionTimestamp == nil && podRevisionMatches(p, br.Status.UpdateRevision) {
+				cands = append(cands, p)
+			}
+		}
+		if len(cands) == 0 {
+			return
+		}
+		p := cands[ev.Arg%len(cands)].DeepCopy()
+		vals := []string{"0", "-3", "999", "abc", "", fmt.Sprint(len(u.sc.Steps) + 1), "1"}
+		p.Labels[v1beta1.RolloutIDLabel] = br.Spec.ReleasePlan.RolloutID
+		p.Labels[v1beta1.RolloutBatchIDLabel] = vals[(ev.Arg/7)%len(vals)]
+		_ = u.h.Update(u.ctx, p)
 	case "unpause-workload":
 		if d, ok := u.getWorkload().(*appsv1.Deployment); ok {
 			d.Spec.Paused = false
